@@ -14,8 +14,10 @@ EXTENDS Ast, Json
 CONSTANTS MaxLen
 VARIABLE vSeq
 
-\* " \ ~ % ( ) ; # LF U+0001 e-acute a space * [ ' | tab
-Alphabet == <<34, 92, 126, 37, 40, 41, 59, 35, 10, 1, 233, 97, 32, 42, 91, 39, 124, 9>>
+\* " \ ~ % ( ) ; # LF U+0001 e-acute a space * [ ' | tab, then characters beyond Latin-1 that a
+\* "printable / blank" classification might treat specially: U+2028 LINE SEPARATOR, U+3000 IDEOGRAPHIC
+\* SPACE, U+0085 NEL, U+1F600 (outside the BMP)
+Alphabet == <<34, 92, 126, 37, 40, 41, 59, 35, 10, 1, 233, 97, 32, 42, 91, 39, 124, 9, 8232, 12288, 133, 128512>>
 \* The benign stand-in.  The implementation legitimately chooses streq?/fnmatch? (and equal?/xattr-match?)
 \* by whether the string holds a wildcard, so the stand-in is taken from the same class.
 MarkerPlain == Cp("QZQ")
